@@ -345,6 +345,13 @@ func main() {
 		}
 	}
 
+	// the library's own constructor of an "unknown" protocol
+	h := PSpec{K: "httpv1"}
+	for _, specs := range [][]PSpec{{h}, {h, {K: "bitswap"}}, {{K: "bitswap"}, h}, {{K: "gateway"}, h, {K: "bitswap"}}, {gs(cidV0, true, false), h},
+		{h, unk(0x12, []byte{1}), al[2]}, {h, h}, {unk(0x01e0, []byte{7}), h}, {unk(0x01e1, nil), h, unk(0x01df, nil)}} {
+		r.doEnc("httpv1", specs)
+	}
+
 	// many protocols (13..40: beyond the insertion-sort range of sort.Sort), pairwise
 	// distinct IDs so that the sorted arrangement is unique
 	rm := c.Rng.Fork("enc-many")
